@@ -1189,6 +1189,49 @@ func (ke *KindEngine) evalCall(c *ssa.Call, res int) *AV {
 			}
 			return &AV{StrKnown: true, Str: l}
 		}
+	case "fmt":
+		// fmt.Sprintf("%d/%d/%d/%d/%d", ...) / Sprint-like ID assembly: one verb per '/'-separated field
+		if name == "Sprintf" && len(args) == 2 {
+			format, ok := constString(args[0])
+			if !ok {
+				return nil
+			}
+			vals, ok := sliceLiteral(args[1])
+			if !ok {
+				return nil
+			}
+			var out []KindSet
+			vi := 0
+			for _, piece := range strings.Split(format, "/") {
+				switch piece {
+				case "%d", "%v", "%s":
+					if vi >= len(vals) {
+						return nil
+					}
+					v := vals[vi]
+					vi++
+					if mi, isMI := v.(*ssa.MakeInterface); isMI {
+						v = mi.X
+					}
+					a := ke.Eval(v)
+					switch {
+					case a == nil:
+						out = append(out, 0)
+					case a.StrKnown:
+						out = append(out, a.Str...)
+					default:
+						out = append(out, a.Scalar)
+					}
+				default:
+					return nil // literal text or a composite verb: not an ID layout the engine reads
+				}
+			}
+			if vi != len(vals) {
+				return nil
+			}
+			return &AV{StrKnown: true, Str: out}
+		}
+		return nil
 	case "math":
 		switch name {
 		case "Floor", "Ceil", "Trunc", "Round", "Abs", "Tan", "Cos", "Sin", "Log", "Atan", "Sinh", "Exp", "Sqrt", "Asin", "Acos", "Cosh", "Tanh":
